@@ -1,4 +1,5 @@
 SPECIFICATION TSpec
-CONSTANTS Thr = {1, 2, 3, 4, 5, 6, 7, 8}
+CONSTANTS WBase = 32768
+  Thr = {1, 2, 3, 4, 5, 6, 7, 8}
 POSTCONDITION TraceAccepted
 CHECK_DEADLOCK FALSE
